@@ -444,7 +444,10 @@ func registerZtypTypes() {
 			return nil
 		}})
 	reg(wireType{name: "BasicRadiusPayload", strict: true, newObj: func() sszObj { return &zBasicRadius{} },
-		fill:   func(t *rapid.T, o sszObj, kind string) bool { o.(*zBasicRadius).Radius = drawH32(t, "radius"); return kind != "over" },
+		fill: func(t *rapid.T, o sszObj, kind string) bool {
+			o.(*zBasicRadius).Radius = drawH32(t, "radius")
+			return kind != "over"
+		},
 		limits: func(o sszObj) error { return nil }})
 	reg(wireType{name: "HistoryRadiusPayload", strict: true, newObj: func() sszObj { return &zHistoryRadius{} },
 		fill: func(t *rapid.T, o sszObj, kind string) bool {
@@ -478,7 +481,10 @@ func registerZtypTypes() {
 			return nil
 		}})
 	reg(wireType{name: "Nibbles", strict: true, hasOver: true, newObj: func() sszObj { return &zNibbles{} },
-		fill:   func(t *rapid.T, o sszObj, kind string) bool { o.(*zNibbles).Nibbles = drawNibbles(t, kind); return true },
+		fill: func(t *rapid.T, o sszObj, kind string) bool {
+			o.(*zNibbles).Nibbles = drawNibbles(t, kind)
+			return true
+		},
 		limits: func(o sszObj) error { return nibblesLimits(o.(*zNibbles).Nibbles) }})
 	reg(wireType{name: "AccountTrieNodeKey", strict: true, hasOver: true, newObj: func() sszObj { return &zAccountKey{} },
 		fill: func(t *rapid.T, o sszObj, kind string) bool {
